@@ -11,7 +11,7 @@ Pieces:
   synthetic graphs      random typed graphs + stub loader
   program generator     small Python programs with source()/sink() sites + CPython identity-tracking ground truth
 """
-import ast, inspect, json, os, random, shutil, sys, textwrap, time, traceback
+import ast, inspect, json, os, random, re, shutil, sys, textwrap, time, traceback
 import common
 
 # --------------------------------------------------------------------------------------------------
@@ -254,6 +254,22 @@ def real_engine(ta, sfg, nodes, entry=-1):
         return res
     res["sources"] = [None if s is None else idx[s] for s in sources]
     res["sinks"] = [idx[s] for s in sinks]
+    # invariants of the SYMBOL tag table (C11_symbol_table_holds_symbols, C11_sink_consults_symbols_only), checked on
+    # the REAL tables: (i) after every propagation each key is the id of a SYMBOL node or of a node some statement
+    # defines; (ii) at sink-tag lookup only nodes that are symbols (or SYMBOL_IS_USED predecessors of the sink, which
+    # on an ill-typed graph may be anything) are looked up
+    from lian.config.constants import SFG_NODE_KIND as _NK, SFG_EDGE_KIND as _EK
+    res["inv"] = []
+    owner_ids = {int(n.node_id) for n in nodes if n.node_type == _NK.SYMBOL}
+    for u_, v_, d_ in sfg.edges(data=True):
+        if d_["weight"].edge_type == _EK.SYMBOL_IS_DEFINED:
+            owner_ids.add(int(v_.node_id))
+    looked_up = []
+    orig_lookup = ta.get_symbol_with_states_tag
+    def rec_lookup(node, _o=orig_lookup):
+        looked_up.append(node)
+        return _o(node)
+    ta.get_symbol_with_states_tag = rec_lookup
     seen = []
     for s in sources:
         if s is None or idx[s] in seen:
@@ -284,12 +300,25 @@ def real_engine(ta, sfg, nodes, entry=-1):
         st = {int(k): v for k, v in env.states_to_bv.items()}
         res["props"].append({"src": idx[s], "tag": tag, "sym": sym, "st": st,
                              "processed": sorted({idx[n] for n in popped})})
+        bad_keys = sorted(k for k in sym if k not in owner_ids)
+        if bad_keys and len(res["inv"]) < 5:
+            res["inv"].append({"kind": "symbol-table-key", "src": idx[s], "ids": bad_keys[:5]})
         for k in sinks:
+            del looked_up[:]
             try:
                 sink_tag, vuln = ta.rule_applier.get_sink_tag_by_rules(k)
                 res["tags"].append([idx[s], idx[k], bool(sink_tag & tag), vuln, False])
             except UnboundLocalError:
                 res["tags"].append([idx[s], idx[k], False, None, True])
+            for nd in looked_up:
+                if nd.node_type != _NK.SYMBOL and len(res["inv"]) < 5:
+                    ed = sfg.get_edge_data(nd, k)
+                    if ed is not None and ed["weight"].edge_type == _EK.SYMBOL_IS_USED:
+                        continue          # ill-typed synthetic graph: a SYMBOL_IS_USED edge from a non-symbol (the model follows it too)
+                    res["inv"].append({"kind": "sink-lookup", "src": idx[s], "sink": idx[k], "node": idx.get(nd, -1),
+                                       "node_kind": int(nd.node_type), "node_id": int(nd.node_id),
+                                       "edge": None if ed is None else int(ed["weight"].edge_type)})
+    ta.get_symbol_with_states_tag = orig_lookup
     ta.taint_manager = TaintEnv()
     try:
         flows = ta.find_flows(sources, sinks)
@@ -602,7 +631,13 @@ class StubRules:
 NAMES = ["src", "sink", "req", "get", "db", "execute", "x", "y", "secret", "cfg"]
 STMT_OPS = ["call_stmt", "object_call_stmt", "assign_stmt", "field_read", "field_write", "record_write",
             "parameter_decl", "return_stmt", "if_stmt", "array_read", "new_object", "variable_decl"]
-UNITS = {0: ("/w/app/main.py", "python"), 1: ("/w/app/util.py", "python"), 2: ("/w/lib/Main.java", "java")}
+UNITS = {0: ("/w/app/main.py", "python"), 1: ("/w/app/util.py", "python"), 2: ("/w/lib/Main.java", "java"), 3: ("/w/lib/m.c", "c")}
+# rule-group languages: every lian language whose name CONTAINS the name of a unit language must not apply to that unit
+# (java < javascript; c < csharp, abc, typescript, javascript; python < python3 is no lian language but a legal group name)
+RULE_LANGS = ["python", "java", "c", "%", "", "javascript", "csharp", "typescript", "abc", "python3"]
+RULE_LANG_W = [6, 2, 1.5, 1, 0.5, 1.2, 0.6, 0.6, 0.6, 0.4]
+SUPER_LANGS = {"java": ["javascript"], "c": ["csharp", "abc", "typescript", "javascript"], "python": ["python3", "cpython"]}
+E_STATE_IS_USED = 11
 
 
 def gen_synth_graph(rng, consts):
@@ -624,7 +659,7 @@ def gen_synth_graph(rng, consts):
     def fresh_stmt_id():
         counter[0] += 1
         sid = 100 + counter[0]
-        stmt_unit[sid] = rng.choices([0, 1, 2], [6, 2, 1])[0]
+        stmt_unit[sid] = rng.choices([0, 1, 2, 3], [6, 2, 1.2, 1.2])[0]
         return sid
 
     def edge(u, v, et, pos=-1):
@@ -680,6 +715,15 @@ def gen_synth_graph(rng, consts):
         for pos in range(1, rng.randint(1, 4)):
             if rng.random() < 0.8 and syms:
                 edge(rng.choice(syms), nd, E["E_USED"], pos if rng.random() < 0.9 else rng.choice([0, -1, pos + 1]))
+            elif rng.random() < 0.7:
+                # a literal operand: a STATE node used by the statement at this position (STATE_IS_USED), whose state
+                # id is drawn from the SYMBOL id pool as often as not (state ids and symbol ids overlap in real runs)
+                lit = SFGNode(node_type=K_ST, def_stmt_id=sid, index=counter[0] + 1000, node_id=rng.choice(sym_pool + st_pool),
+                              access_path=[])
+                counter[0] += 1
+                sts.append(lit)
+                g.add_node(lit)
+                edge(lit, nd, E_STATE_IS_USED, pos)
         if rng.random() < 0.8:
             tgt = mk_sym(rng.choice(NAMES + [""]), ap=[rng.choice(NAMES), rng.choice(NAMES)] if op == "field_read" and rng.random() < 0.7 else None) \
                 if rng.random() < 0.6 or not syms else rng.choice(syms)
@@ -787,7 +831,9 @@ def targeted_rule(rng, kind, g, loader, consts):
             r.key = n.stmt.key
     if rng.random() < 0.85:
         uid = loader.convert_stmt_id_to_unit_id(n.def_stmt_id)
-        r.lang = rng.choice([loader.units[uid][1], loader.units[uid][1], "%"])
+        ul = loader.units[uid][1]
+        # the unit's language, the any-language marker, or a language whose NAME contains the unit's (must not apply)
+        r.lang = rng.choice([ul, ul, ul, "%"] + SUPER_LANGS.get(ul, [])[:2])
     if rng.random() < 0.8:
         r.unit_path = None
         r.unit_name = None
@@ -821,7 +867,7 @@ def gen_rule(rng, kind, consts):
     tgt_pool = [[kw["KW_ARG0"]], [kw["KW_ARG0"]], [kw["KW_ARG1"]], [kw["KW_ARG2"]], [kw["KW_ARG0"], kw["KW_ARG1"]],
                 [kw["KW_RECEIVER"]], [kw["KW_TARGET"]], [], None, kw["KW_ARG0"], ["%arg0"], ["bogus", kw["KW_ARG1"]],
                 [kw["KW_ARG3"]], [kw["KW_ARG4"]], [""]]
-    r = Rule(kind=kind, lang=rng.choices(["python", "java", "%", ""], [6, 2, 1, 0.5])[0], name=name, operation=op,
+    r = Rule(kind=kind, lang=rng.choices(RULE_LANGS, RULE_LANG_W)[0], name=name, operation=op,
              target=rng.choice(tgt_pool) if kind == "sink" else None,
              attr=rng.choice([None, None, None, "", "x"]) if kind == "source" else None,
              unit_path=rng.choice([None] * 6 + ["/w/app/main.py", "/w/app/other.py"]),
@@ -834,7 +880,7 @@ def gen_rule(rng, kind, consts):
 
 def gen_code_rule(rng, kind):
     from lian.taint.rule_manager import SourceCodeRule
-    return SourceCodeRule(kind=kind, lang=rng.choice(["python", "java", "%"]),
+    return SourceCodeRule(kind=kind, lang=rng.choices(RULE_LANGS, RULE_LANG_W)[0] or "%",
                           unit_path=rng.choice(["app/main.py", "main.py", "util", "/w/", "nomatch.py"]),
                           line_num=rng.randint(1, 6), symbol_name=rng.choice(NAMES + ["=", "vv"]))
 
@@ -924,7 +970,7 @@ def extend_ruleset(rng, rs, consts, g=None, loader=None):
             elif what == "line_num":
                 nr.line_num = rng.choice([1, 2, 3, 9999, None])
             elif what == "lang":
-                nr.lang = rng.choice(["python", "java", "%"])
+                nr.lang = rng.choices(RULE_LANGS, RULE_LANG_W)[0]
             elif isinstance(nr.name, str) and nr.name:
                 nr.name = rng.choice([nr.name[1:] or nr.name, nr.name[:-1] or nr.name, "x" + nr.name])
             return nr
@@ -1024,9 +1070,9 @@ def base_rules(n_src, n_sink, n_param):
     return src, snk
 
 
-def write_settings(d, src_groups, sink_groups):
+def write_settings(d, src_groups, sink_groups, entry_methods=None):
     os.makedirs(d, exist_ok=True)
-    open(os.path.join(d, "entry.yaml"), "w").write('- method_list: ["%unit_init"]\n')
+    open(os.path.join(d, "entry.yaml"), "w").write("- method_list: " + json.dumps(["%unit_init"] + list(entry_methods or [])) + "\n")
     open(os.path.join(d, "source.yaml"), "w").write(yaml_rules(src_groups))
     open(os.path.join(d, "sink.yaml"), "w").write(yaml_rules(sink_groups))
     shutil.copy(os.path.join(common.REPO, "default_settings", "propagation.yaml"), os.path.join(d, "propagation.yaml"))
@@ -1070,6 +1116,90 @@ def fast_rule_manager(settings_dir, code_from, max_line):
     return rm
 
 
+REPORT_FLOW_RE = re.compile(r"^Found a flow to sink (.*) on line (\d+)$")
+REPORT_COUNT_RE = re.compile(r"^Found (\d+) taint flows\.$")
+
+
+def collect_report(l, TA, in_memory, stdout_text):
+    """What the taint phase REPORTED (stdout + taint_data_flow.json) next to what find_flows returned, each flow as
+    [source stmt id, sink stmt id, vuln_type, source file, source line, sink file, sink line] resp. as the triple
+    [sink line, sink GIR text, source GIR text] the console shows."""
+    from lian.config import config as CF
+    ld = l.loader
+    def line(sid):
+        return int(ld.get_stmt_gir(sid).start_row) + 1
+    def upath(sid):
+        return ld.convert_unit_id_to_unit_path(ld.convert_stmt_id_to_unit_id(sid))
+    memory, console_expected = [], []
+    for f in in_memory:
+        a, b = int(f.source_stmt_id), int(f.sink_stmt_id)
+        memory.append([a, b, f.vuln_type, upath(a), line(a), upath(b), line(b)])
+        console_expected.append([line(b), TA.get_gir_str(ld.get_stmt_gir(b)), TA.get_gir_str(ld.get_stmt_gir(a))])
+    written = None
+    path = os.path.join(l.options.workspace, CF.TAINT_OUTPUT_DIR, "taint_data_flow.json")
+    if os.path.exists(path):
+        try:
+            written = [[e.get("source_stmt_id"), e.get("sink_stmt_id"), e.get("vuln_type"), e.get("source_file_path"),
+                        e.get("source_line"), e.get("sink_file_path"), e.get("sink_line")] for e in json.load(open(path))]
+        except Exception as e:
+            written = "unreadable: " + repr(e)[:200]
+    console, count = [], None
+    lines = stdout_text.split("\n")
+    for i, ln in enumerate(lines):
+        m = REPORT_COUNT_RE.match(ln)
+        if m:
+            count = int(m.group(1))
+        m = REPORT_FLOW_RE.match(ln)
+        if m:
+            srcl = lines[i + 1] if i + 1 < len(lines) else ""
+            sg = None
+            if srcl.startswith("\tSource : "):
+                sg = srcl[len("\tSource : "):]
+                sg = sg[:sg.rfind(" (in ")] if " (in " in sg else sg
+            console.append([int(m.group(2)), m.group(1), sg])
+    return {"memory": memory, "written": written, "console": console, "console_expected": console_expected,
+            "console_count": count, "no_flows_line": "No taint flows found." in stdout_text}
+
+
+def report_problems(rep):
+    """-> [(side, problem)]: the written report must contain exactly the flows find_flows returned, each identified by
+    its source STATEMENT and sink STATEMENT (C10: a flow missing from the report; C11: a reported flow nobody found)"""
+    import collections
+    out = []
+    if not rep:
+        return out
+    mem = collections.Counter(json.dumps(x) for x in rep["memory"])
+    def diff(kind, got_list, exp_counter, what):
+        got = collections.Counter(json.dumps(x) for x in got_list)
+        miss, extra = exp_counter - got, got - exp_counter
+        if miss:
+            out.append(("C10", {"what": f"a flow found by find_flows is missing from {what} (flows are identified by source and sink STATEMENT)",
+                                "expect": "report", "channel": kind, "missing": [json.loads(k) for k in list(miss)[:4]],
+                                "found": sum(exp_counter.values()), "reported": len(got_list)}))
+        if extra:
+            out.append(("C11", {"what": f"{what} contains a flow that find_flows did not return", "expect": "report", "channel": kind,
+                                "extra": [json.loads(k) for k in list(extra)[:4]], "found": sum(exp_counter.values()), "reported": len(got_list)}))
+    if not rep["memory"]:
+        if rep["written"]:
+            out.append(("C11", {"what": "taint_data_flow.json lists flows although find_flows returned none", "expect": "report",
+                                "channel": "json", "extra": rep["written"][:4]}))
+        if rep["console"]:
+            out.append(("C11", {"what": "the console lists flows although find_flows returned none", "expect": "report",
+                                "channel": "console", "extra": rep["console"][:4]}))
+        return out
+    if not isinstance(rep["written"], list):
+        out.append(("C10", {"what": "find_flows returned flows but taint_data_flow.json is absent or unreadable", "expect": "report",
+                            "channel": "json", "written": rep["written"], "found": len(rep["memory"])}))
+    else:
+        diff("json", rep["written"], mem, "taint_data_flow.json")
+    diff("console", rep["console"], collections.Counter(json.dumps(x) for x in rep["console_expected"]), "the console report")
+    if rep["console_count"] != len(rep["memory"]):
+        out.append(("C10" if (rep["console_count"] or 0) < len(rep["memory"]) else "C11",
+                    {"what": "the console announces another number of flows than find_flows returned", "expect": "report",
+                     "channel": "console-count", "announced": rep["console_count"], "found": len(rep["memory"])}))
+    return out
+
+
 def packed_worker(job):
     """Runs in a child process: one in-process lian run (all phases) over the job's files, then the real taint functions
     on every entry point's SFG under every rule configuration of the job. Returns JSON-able results."""
@@ -1085,17 +1215,20 @@ def packed_worker(job):
             open(os.path.join(src_dir, fn), "w").write(text)
         ws = os.path.join(job["dir"], "ws")
         base_cfg = job["configs"][0]
-        sys.argv = ["main.py", "run", "-l", "python", "-w", ws, "-f", "-q", "--default-settings", base_cfg["dir"], src_dir]
+        sys.argv = ["main.py", "run", "-l", job.get("langs") or "python", "-w", ws, "-f", "-q", "--default-settings", base_cfg["dir"], src_dir]
         from lian.main import Lian
         from lian.taint import taint_analysis as TA
         recorded = {}
+        in_memory = []
         orig_find_flows = TA.TaintAnalysis.find_flows
         def rec_find_flows(self, sources, sinks):
             flows = orig_find_flows(self, sources, sinks)
             recorded[int(self.current_entry_point)] = [[int(f.source_stmt_id), int(f.sink_stmt_id), f.vuln_type] for f in flows]
+            in_memory.extend(flows)
             return flows
         TA.TaintAnalysis.find_flows = rec_find_flows
         buf = io.StringIO()
+        buf4 = io.StringIO()
         with contextlib.redirect_stdout(buf):
             l = Lian()
             l.parse_cmds().init_submodules()
@@ -1104,10 +1237,18 @@ def packed_worker(job):
             out["times"]["analysis"] = round(time.time() - t0, 2)
             t1 = time.time()
             ta_real = TA.TaintAnalysis(l, l.options)
-            ta_real.run()
+            # the taint phase runs as the command line runs it WITHOUT -q: it prints and writes its report
+            was_quiet = l.options.quiet
+            l.options.quiet = False
+            try:
+                with contextlib.redirect_stdout(buf4):
+                    ta_real.run()
+            finally:
+                l.options.quiet = was_quiet
             out["times"]["phase4"] = round(time.time() - t1, 2)
         TA.TaintAnalysis.find_flows = orig_find_flows
         out["phase4"] = recorded
+        out["report"] = collect_report(l, TA, in_memory, buf4.getvalue())
         t2 = time.time()
         max_line = max(t.count("\n") for t in job["files"].values()) + 2
         rms = {}
@@ -1127,17 +1268,26 @@ def packed_worker(job):
             except OutOfFragment as e:
                 out["cases"].append({"entry": int(mid), "unit": path, "out_of_fragment": str(e)})
                 continue
-            # statement id -> (file name, line) for flow reporting
+            # statement id -> (file name, line) for flow reporting; stmt_pos adds the column and the statement's
+            # name (the callee of a call statement): the identity of a STATEMENT, several of which may share a line
             stmt_site = {}
+            stmt_pos = {}
             for n, jn in zip(nodes, gj["nodes"]):
                 if jn[0] == 1:
                     stmt_site[jn[1]] = [os.path.basename(gj["units"][jn[14]][0]), jn[6] + 1]
+                    if jn[1] not in stmt_pos:
+                        st = l.loader.get_stmt_gir(jn[1])
+                        try:
+                            col = int(st.start_col)
+                        except Exception:
+                            col = -1
+                        stmt_pos[jn[1]] = [stmt_site[jn[1]][0], jn[6] + 1, col, _optstr(jn[11])]
             for cfg in job["configs"]:
                 rm = rms[cfg["name"]]
                 ta = make_ta(l.loader, rm)
                 real = real_engine(ta, sfg, nodes, mid)
                 out["cases"].append({"entry": int(mid), "unit": path, "config": cfg["name"], "graph": gj,
-                                     "rules": ser_rules(rm, gj), "real": real, "stmt_site": stmt_site})
+                                     "rules": ser_rules(rm, gj), "real": real, "stmt_site": stmt_site, "stmt_pos": stmt_pos})
         out["times"]["engine"] = round(time.time() - t2, 2)
     except Exception:
         out["error"] = traceback.format_exc()[-3000:]
@@ -1268,6 +1418,11 @@ def engine_checks(real, gj, rj, params):
                             "src": p["src"], "missing_nodes": sorted(set(L) - set(p["processed"]))})
     if bad_tag_values(real):
         c11.append({"what": "a stored tag is not the pair's single bit", "bad": bad_tag_values(real)[:5]})
+    for iv in real.get("inv") or []:
+        if iv["kind"] == "symbol-table-key":
+            c11.append({"what": "after a propagation the SYMBOL tag table holds an id that belongs to no symbol of the graph (C11_symbol_table_holds_symbols)", "detail": iv})
+        else:
+            c11.append({"what": "get_sink_tag_by_rules looked a node that is not a symbol up in the SYMBOL tag table (C11_sink_consults_symbols_only)", "detail": iv})
     for (a, b, v) in (real["flows"] or []):
         st["flows"] += 1
         src_nodes = [i for i in (real["sources"] or []) if i is not None and N[i][1] == a]
@@ -1315,8 +1470,10 @@ def flow_pairs(real):
 # --------------------------------------------------------------------------------------------------
 
 SIZES = {
-    "quick": {"synth": 4000, "mono": 1200, "via_loader": 400, "jobs": 4, "cases_per_job": 40, "matcher_cases": 600},
-    "thorough": {"synth": 60000, "mono": 15000, "via_loader": 4000, "jobs": 28, "cases_per_job": 60, "matcher_cases": 6000},
+    "quick": {"synth": 4000, "mono": 1200, "via_loader": 400, "jobs": 4, "cases_per_job": 40, "matcher_cases": 600,
+              "layout_jobs": 2, "layout_cases_per_job": 28},
+    "thorough": {"synth": 60000, "mono": 15000, "via_loader": 4000, "jobs": 28, "cases_per_job": 60, "matcher_cases": 6000,
+                 "layout_jobs": 12, "layout_cases_per_job": 50},
 }
 
 
@@ -2034,7 +2191,292 @@ def build_jobs(ctx, tier, root):
         cfgs = job_configs(d, ns, nk, npar, rng, [f"case{c.idx:04d}.py" for c, _ in cases])
         jobs.append({"name": f"job{j}", "dir": d, "files": files, "configs": [{"name": c["name"], "dir": c["dir"]} for c in cfgs],
                      "_cases": cases, "_cfgs": cfgs, "_rules": base_rules(ns, nk, npar)})
+    jobs += build_layout_jobs(random.Random(rng.getrandbits(64)), tier, root)
+    jobs += build_lang_jobs(random.Random(rng.getrandbits(64)), tier, root)
     return jobs
+
+
+# ---- tie (f): programs in other languages under rule groups of every language ------------------------------------
+# a rule group applies to a unit iff its language IS the unit's language (or the any-language marker): in particular
+# not when the unit's language name is merely a substring of the group's (java / javascript, c / csharp, abc,
+# typescript, javascript)
+XLANG_RULE_LANGS = ["java", "c", "javascript", "csharp", "typescript", "abc", "python", "'%'"]
+
+
+def gen_xlang_program(rng, lang, idx, n_src, n_sink):
+    """straight-line main(): `T v = srcK();`, `T v = w;`, `sinkK(v);`, `sinkK(<literal>);`, every variable assigned once.
+    -> (file name, text, expected {(source name, sink name)})"""
+    T = "String" if lang == "java" else "int"
+    lit = (lambda: '"k%d"' % rng.randint(0, 9)) if lang == "java" else (lambda: str(rng.randint(0, 99)))
+    taint, lines, exp = {}, [], set()
+    vs = []
+    used_src, used_sink = [0], [0]
+    def next_sink():
+        used_sink[0] += 1
+        return used_sink[0] - 1
+    for i in range(rng.randint(4, 9)):
+        r = rng.random()
+        if used_sink[0] >= n_sink:
+            break
+        if (r < 0.35 or not vs) and used_src[0] < n_src:
+            v = f"v{len(vs)}"
+            k = used_src[0]            # every callee name once per program (C10/repeated-external-callee)
+            used_src[0] += 1
+            lines.append(f"{T} {v} = src{k}();")
+            taint[v] = {f"src{k}"}
+            vs.append(v)
+        elif r < 0.55 and vs:
+            v, w = f"v{len(vs)}", rng.choice(vs)
+            lines.append(f"{T} {v} = {w};")
+            taint[v] = set(taint[w])
+            vs.append(v)
+        elif not vs:
+            continue
+        elif r < 0.9:
+            k, w = next_sink(), rng.choice(vs)
+            lines.append(f"sink{k}({w});")
+            exp |= {(s_, f"sink{k}") for s_ in taint[w]}
+        else:
+            lines.append(f"sink{next_sink()}({lit()});")
+    if lang == "java":
+        name = f"X{idx}"
+        text = f"public class {name} {{\n    public static void main(String[] args) {{\n" + "".join("        " + l + "\n" for l in lines) + "    }\n}\n"
+        return name + ".java", text, exp
+    text = "int main() {\n" + "".join("    " + l + "\n" for l in lines) + "    return 0;\n}\n"
+    return f"x{idx}.c", text, exp
+
+
+def build_lang_jobs(rng, tier, root):
+    n_src, n_sink = 6, 8
+    files, progs = {}, {}
+    for i in range(6 if tier == "quick" else 24):
+        lang = "java" if i % 2 == 0 else "c"
+        fn, text, exp = gen_xlang_program(rng, lang, i, n_src, n_sink)
+        files[fn] = text
+        progs[fn] = {"lang": lang, "expected": sorted(exp)}
+    d = os.path.join(root, "xlang0")
+    os.makedirs(d, exist_ok=True)
+    src = [{"operation": "call_stmt", "name": f"src{i}"} for i in range(n_src)]
+    snk = [{"operation": "call_stmt", "name": f"sink{i}", "target": ["\\%arg0"], "vuln_type": "v"} for i in range(n_sink)]
+    cfgs = []
+    for L in XLANG_RULE_LANGS:
+        nm = "lang_" + (L.strip("'").replace("%", "any"))
+        cd = os.path.join(d, "cfg_" + nm)
+        write_settings(cd, [(L, src)], [(L, snk)], entry_methods=["main"])
+        cfgs.append({"name": nm, "dir": cd, "groups": [[(L, src)], [(L, snk)]], "rule_lang": L.strip("'")})
+    return [{"name": "xlang0", "dir": d, "files": files, "langs": "java,c", "configs": [{"name": c["name"], "dir": c["dir"]} for c in cfgs],
+             "_cases": [], "_cfgs": cfgs, "_xlang": progs}]
+
+
+def xlang_eval(job, res, params, prob, stats):
+    xs = stats.setdefault("other_languages", {"programs": len(job["_xlang"]), "entry_config_pairs": 0, "must_be_silent": 0,
+                                               "applicable": 0, "expected_flows": 0, "reported_flows": 0, "unit_langs": {}, "rule_langs": [c["rule_lang"] for c in job["_cfgs"]]})
+    cfg_by = {c["name"]: c for c in job["_cfgs"]}
+    for c in res["cases"]:
+        if "out_of_fragment" in c:
+            continue
+        fn = os.path.basename(c["unit"])
+        pg = job["_xlang"].get(fn)
+        if pg is None:
+            continue
+        cfg = cfg_by[c["config"]]
+        L = cfg["rule_lang"]
+        ulangs = {u[1] for u in c["graph"]["units"]}
+        xs["entry_config_pairs"] += 1
+        for u in ulangs:
+            xs["unit_langs"][u] = xs["unit_langs"].get(u, 0) + 1
+        if ulangs != {pg["lang"]}:
+            prob.harness.append({"what": "unit language differs from the generated program's language", "file": fn, "langs": sorted(ulangs)})
+            continue
+        real = c["real"]
+        payload = {"kind": "program", "files": {fn: job["files"][fn]}, "src_groups": cfg["groups"][0], "sink_groups": cfg["groups"][1],
+                   "config": c["config"], "langs": job["langs"], "entry_methods": ["main"], "origin": f"{job['name']} {fn} config={c['config']}"}
+        pos = c["stmt_pos"]
+        rep = set()
+        for a, b, v in (real["flows"] or []):
+            pa, pb = pos.get(a) or pos.get(str(a)), pos.get(b) or pos.get(str(b))
+            rep.add((pa[3], pb[3]))
+        if L not in (pg["lang"], "%"):
+            xs["must_be_silent"] += 1
+            if real["sources"] or real["sinks"] or real["flows"]:
+                prob.c11.append(dict(payload, problem={
+                    "what": f"rules listed only under `lang: {L}` were applied to a unit written in {pg['lang']} (a rule group applies to the units of ITS language, not to languages whose name it contains)",
+                    "expect": "silent", "rule_lang": L, "unit_lang": pg["lang"], "sources": len(real["sources"] or []), "sinks": len(real["sinks"] or []),
+                    "flows": sorted(rep)[:5]}))
+            continue
+        if real["sources"] is None:
+            continue
+        is_main = any(n[0] == params["consts"]["K_STMT"] and n[5] == "call_stmt" for n in c["graph"]["nodes"])
+        if not is_main:
+            continue
+        xs["applicable"] += 1
+        xs["expected_flows"] += len(pg["expected"])
+        xs["reported_flows"] += len(rep)
+        for (a, b) in pg["expected"]:
+            if (a, b) not in rep:
+                prob.c10.append(dict(payload, problem={"what": f"a flow of a straight-line {pg['lang']} program (every variable assigned once) is not reported under rules of its language",
+                                                      "names": [a, b], "expect": "xlang-missed", "rule_lang": L, "unit_lang": pg["lang"]}))
+        for (a, b) in sorted(rep):
+            if (a, b) not in set(map(tuple, pg["expected"])):
+                prob.c11.append(dict(payload, problem={"what": f"a flow reported for a straight-line {pg['lang']} program (every variable assigned once) does not exist",
+                                                      "names": [a, b], "expect": "xlang-spurious", "rule_lang": L, "unit_lang": pg["lang"]}))
+
+
+def layout_groups(n_src, n_sink, n_tink=0):
+    src = [{"operation": "call_stmt", "name": f"src{i}"} for i in range(n_src)]
+    snk = [{"operation": "call_stmt", "name": f"sink{i}", "target": ["\\%arg0"], "vuln_type": "v"} for i in range(n_sink)]
+    snk += [{"operation": "call_stmt", "name": f"tink{i}", "target": ["\\%arg1"], "vuln_type": "w"} for i in range(n_tink)]
+    return [("python", src)], [("python", snk)]
+
+
+def build_layout_jobs(rng, tier, root):
+    """tie (e): layout programs (taint_layouts.py) — statement-level identity, several statements per line, helpers
+    with several returns, class hierarchies over several files.  Ground truth = the same text under CPython."""
+    import taint_layouts as tl
+    sz = SIZES[tier]
+    jobs = []
+    work = os.path.join(root, "layout_exec")
+    os.makedirs(work, exist_ok=True)
+    for j in range(sz["layout_jobs"]):
+        cases, files = [], {}
+        for i in range(sz["layout_cases_per_job"]):
+            # the first program of every job is the literal-operand stress program
+            case = tl.make_layout_case(rng, j * 1000 + i, literals=(i == 0))
+            gt, err = tl.execute(case.files, case.main, work)
+            cases.append((case, gt, err))
+            files.update(case.files)
+        d = os.path.join(root, f"layout{j}")
+        os.makedirs(d, exist_ok=True)
+        ns = max([c.n_src for c, _, _ in cases] + [1])
+        nk = max([c.n_sink for c, _, _ in cases] + [1])
+        sg, kg = layout_groups(ns, nk, max([c.n_tink for c, _, _ in cases] + [0]))
+        cd = os.path.join(d, "cfg_base")
+        write_settings(cd, sg, kg)
+        jobs.append({"name": f"layout{j}", "dir": d, "files": files, "configs": [{"name": "base", "dir": cd}],
+                     "_cases": [], "_cfgs": [{"name": "base", "dir": cd, "groups": [sg, kg]}], "_layout": cases, "_groups": [sg, kg]})
+    return jobs
+
+
+def reported_stmt_pairs(entry_case):
+    """real flows of one (entry, config) as ((file, line, col), (file, line, col)) pairs + the statements' names"""
+    real, pos = entry_case["real"], entry_case["stmt_pos"]
+    out = {}
+    for a, b, v in (real["flows"] or []):
+        pa, pb = pos.get(a) or pos.get(str(a)), pos.get(b) or pos.get(str(b))
+        out[((pa[0], pa[1], pa[2]), (pb[0], pb[1], pb[2]))] = (pa[3], pb[3])
+    return out
+
+
+def layout_eval(job, res, params, prob, stats):
+    import taint_layouts as tl
+    """every (source statement, sink statement) pair CPython observed must be reported, whatever the number of
+    functions, classes and files the value crosses; every reported flow must start and end at a site statement"""
+    consts = params["consts"]
+    ls = stats.setdefault("layout", {"programs": 0, "files": 0, "expected_flows": 0, "reported_flows": 0, "missed": 0, "missed_known": {},
+                                     "programs_with_expected_flows": 0, "multi_file_programs": 0, "features": {}, "same_line_site_pairs": 0})
+    by_unit = {}
+    for c in res["cases"]:
+        if "out_of_fragment" in c:
+            continue
+        by_unit.setdefault(os.path.basename(c["unit"]), []).append(c)
+    sg, kg = job["_groups"]
+    for case, gt, err in job["_layout"]:
+        if err:
+            prob.harness.append({"what": "generated layout program does not run under CPython", "error": err, "files": case.files})
+            continue
+        ls["programs"] += 1
+        ls["files"] += len(case.files)
+        ls["multi_file_programs"] += len(case.files) > 1
+        for f in case.features:
+            ls["features"][f] = ls["features"].get(f, 0) + 1
+        lines = {}
+        for nm, (fn, ln, col) in case.sites.items():
+            lines.setdefault((nm[:3] == "src", fn, ln), []).append(nm)
+        ls["same_line_site_pairs"] += sum(len(v) - 1 for v in lines.values())
+        rep = {}
+        entries = []
+        for fn in case.files:
+            for c in by_unit.get(fn, []):
+                rep.update(reported_stmt_pairs(c))
+                entries.append(c)
+        site_at = {pos: nm for nm, pos in case.sites.items()}
+        payload = {"kind": "program", "files": case.files, "src_groups": sg, "sink_groups": kg, "config": "base",
+                   "layout_main": case.main, "origin": f"{job['name']} {case.main}", "context_files": job["files"]}
+        ls["expected_flows"] += len(gt)
+        ls["programs_with_expected_flows"] += bool(gt)
+        ls["reported_flows"] += len(rep)
+        lit_sinks = tl.literal_designated(case)
+        ls["literal_designated_sinks"] = ls.get("literal_designated_sinks", 0) + len(lit_sinks)
+        for (pa, pb), (na, nb) in sorted(rep.items()):
+            sa, sb = site_at.get(pa), site_at.get(pb)
+            if sb in lit_sinks:
+                prob.c11.append(dict(payload, problem={"what": "a flow is reported into a sink statement whose rule-designated argument is a literal",
+                                                      "stmt_pair": [list(pa), list(pb)], "names": [na, nb], "expect": "spurious"}))
+                continue
+            if sa is None or sb is None or not sa.startswith("src") or sb.startswith("src") or sa != na or sb != nb:
+                prob.c11.append(dict(payload, problem={"what": "a reported flow starts or ends at a statement that is no source / sink statement of the program (position or callee name differs)",
+                                                      "stmt_pair": [list(pa), list(pb)], "names": [na, nb], "expect": "spurious"}))
+        for (s_, k_) in sorted(gt):
+            key = (case.sites[s_], case.sites[k_])
+            if key in rep:
+                continue
+            fid = classify_layout_missed(case, entries, consts, params, s_, k_)
+            if fid:
+                ls["missed_known"][fid] = ls["missed_known"].get(fid, 0) + 1
+                prob.known.append((fid, f"flow {s_}@{key[0]} -> {k_}@{key[1]} not reported ({payload['origin']})"))
+                continue
+            ls["missed"] += 1
+            prob.c10.append(dict(payload, problem={
+                "what": "a flow observed in CPython (the same text executed with marker objects: source statement -> first argument of the sink statement) is not reported",
+                "names": [s_, k_], "stmt_pair": [list(key[0]), list(key[1])], "pair": [list(key[0][:2]), list(key[1][:2])], "expect": "missed",
+                "features": sorted(case.features)}))
+
+
+def same_symbol_two_positions(case, entries, consts, k_name):
+    """C10/same-symbol-at-two-positions: the sink call passes ONE variable at its designated position and at another
+    position (AST), and in the SFG that variable's symbol has a single SYMBOL_IS_USED edge to the call statement whose
+    position is not the designated one (the graph keeps one edge per (symbol, statement) pair)."""
+    import ast
+    import taint_layouts as tl
+    kfile, kline, kcol = case.sites[k_name]
+    di = tl.designated_index(k_name)
+    var = None
+    for node in ast.walk(ast.parse(case.files[kfile])):
+        if isinstance(node, ast.Call) and isinstance(node.func, ast.Name) and node.func.id == k_name:
+            if di < len(node.args) and isinstance(node.args[di], ast.Name):
+                v = node.args[di].id
+                if any(i != di and isinstance(a, ast.Name) and a.id == v for i, a in enumerate(node.args)):
+                    var = v
+    if var is None:
+        return False
+    for c in entries:
+        gj = c["graph"]
+        N = gj["nodes"]
+        for u, n in enumerate(N):
+            if n[0] != consts["K_STMT"] or n[5] != "call_stmt" or n[11] != k_name or n[6] + 1 != kline:
+                continue
+            poss = [pos for p_, et, pos in gj["in"][u] if et == consts["E_USED"] and N[p_][0] == consts["K_SYMBOL"] and N[p_][5] == var]
+            if poss and all(pos != di + 1 for pos in poss):
+                return True
+    return False
+
+
+def classify_layout_missed(case, entries, consts, params, s_name, k_name):
+    """known open findings that apply to layout programs, each by its signature in the entry points' SFGs"""
+    sfile, sline, _ = case.sites[s_name]
+    if same_symbol_two_positions(case, entries, consts, k_name):
+        return "C10/same-symbol-at-two-positions"
+    for c in entries:
+        gj = c["graph"]
+        if callee_without_state(gj, consts, sfile, sline, s_name):
+            return "C10/repeated-external-callee"
+        if source_state_on_other_context(gj, consts, sfile, sline):
+            return "C10/source-state-on-other-context"
+        if returned_state_duplicated(gj, consts, sfile, sline):
+            return "C10/returned-state-duplicated"
+        if call_site_budget_exhausted(c, params, sfile, sline):
+            return "C10/call-site-budget-per-entry"
+    return None
 
 
 def run_jobs(jobs):
@@ -2081,6 +2523,23 @@ def packed_phase(ctx, params, prob, tier, side, extra_jobs=()):
             all_cases.append((job, c))
         job["_by"] = by
         job["_phase4"] = res["phase4"]
+        # what the taint phase printed and wrote must be what find_flows returned (statement-level identity)
+        stats["report_flows_compared"] = stats.get("report_flows_compared", 0) + len((res.get("report") or {}).get("memory") or [])
+        for side_, pr in report_problems(res.get("report")):
+            # narrow the input to the program the first differing flow belongs to (files of one program share a prefix)
+            files_ = job["files"]
+            first = (pr.get("missing") or pr.get("extra") or [None])[0]
+            if pr.get("channel") == "json" and first and isinstance(first[3], str):
+                pre = os.path.basename(first[3]).split(".")[0].split("_")[0]
+                narrowed = {k: v for k, v in files_.items() if k.split(".")[0].split("_")[0] == pre}
+                files_ = narrowed or files_
+            item = {"kind": "program", "files": files_, "src_groups": job["_cfgs"][0]["groups"][0], "sink_groups": job["_cfgs"][0]["groups"][1],
+                    "config": job["_cfgs"][0]["name"], "origin": f"{job['name']} (report of the whole run)", "problem": pr}
+            (prob.c10 if side_ == "C10" else prob.c11).append(item)
+        if "_layout" in job:
+            layout_eval(job, res, params, prob, stats)
+        if "_xlang" in job:
+            xlang_eval(job, res, params, prob, stats)
         for dff in res.get("loader", [])[:2]:
             prob.corr.append({"origin": f"{job['name']} RuleManager.init on configuration {dff['config']!r} ({dff['file']})",
                               "difference": dict(dff, what="the loaded rule list is not the list of rule entries of the YAML file (one Rule per entry, in order)")})
@@ -2169,7 +2628,8 @@ def packed_phase(ctx, params, prob, tier, side, extra_jobs=()):
                 gj = entry[cname]["graph"] if cname in entry else None
                 payload = {"kind": "program", "files": {k: v for k, v in job["files"].items() if k.startswith(fname[:8])},
                            "src_groups": cfg["groups"][0], "sink_groups": cfg["groups"][1], "config": cname,
-                           "base_groups": cfg_by_name["base"]["groups"], "origin": f"{job['name']} {fname} config={cname}"}
+                           "base_groups": cfg_by_name["base"]["groups"], "origin": f"{job['name']} {fname} config={cname}",
+                           "context_files": job["files"]}
                 for (s, k) in sorted(gt_v):
                     ns_, nk_ = (names[s[0]], s[1]), (names[k[0]], k[1])
                     if (ns_, nk_) in rep:
@@ -2328,8 +2788,9 @@ def corpus_program_jobs(corpus, root):
         d = os.path.join(root, f"corpus{i}")
         os.makedirs(d, exist_ok=True)
         cd = os.path.join(d, "cfg_base")
-        write_settings(cd, e["src_groups"], e["sink_groups"])
-        jobs.append({"name": f"corpus{i}", "dir": d, "files": e["files"], "configs": [{"name": "base", "dir": cd}], "_e": e})
+        write_settings(cd, e["src_groups"], e["sink_groups"], entry_methods=e.get("entry_methods"))
+        jobs.append({"name": f"corpus{i}", "dir": d, "files": e["files"], "configs": [{"name": "base", "dir": cd}], "_e": e,
+                     "langs": e.get("langs")})
     return jobs
 
 
@@ -2357,7 +2818,30 @@ def corpus_program_eval(jobs, results, params, prob):
                     {"origin": e["_file"], "kind": "program", "files": e["files"], "src_groups": e["src_groups"], "sink_groups": e["sink_groups"],
                      "problem": {"what": "corpus program: the taint phase raised", "exc": c["real"]["exc"], "err": c["real"]["err"], "expect": "crash"}})
         payload = {"kind": "program", "files": e["files"], "src_groups": e["src_groups"], "sink_groups": e["sink_groups"],
-                   "config": "base", "origin": e["_file"]}
+                   "config": "base", "origin": e["_file"], "langs": e.get("langs"), "entry_methods": e.get("entry_methods")}
+        if e.get("must_be_silent"):
+            # rules that do not apply to the program's language: no source, no sink, no flow
+            if not any("out_of_fragment" not in c for c in res["cases"]):
+                prob.harness.append({"what": "corpus program produced no entry point", "file": e["_file"]})
+            for c in res["cases"]:
+                if "out_of_fragment" in c:
+                    continue
+                r_ = c["real"]
+                if r_["sources"] or r_["sinks"] or r_["flows"]:
+                    prob.c11.append(dict(payload, problem={"what": "corpus witness: rules that do not apply to the unit's language were applied: " + e.get("note", ""),
+                                                          "expect": "silent", "sources": len(r_["sources"] or []), "sinks": len(r_["sinks"] or [])}))
+                    break
+        for side_, pr in report_problems(res.get("report")):
+            (prob.c10 if side_ == "C10" else prob.c11).append(dict(payload, problem=pr))
+        rep_stmt = {}
+        for c in res["cases"]:
+            if "out_of_fragment" not in c:
+                rep_stmt.update(reported_stmt_pairs(c))
+        for pr in e.get("must_report_stmt", []):
+            # statement-level witness: [[file, line, col], [file, line, col]]
+            if (tuple(pr[0]), tuple(pr[1])) not in rep_stmt:
+                prob.c10.append(dict(payload, problem={"what": "corpus witness (statement-level) is missed: " + e.get("note", ""),
+                                                      "stmt_pair": pr, "pair": [pr[0][:2], pr[1][:2]], "expect": "missed"}))
         for pr in e.get("must_report", []):
             key = ((pr[0][0], pr[0][1]), (pr[1][0], pr[1][1]))
             if key not in rep:
@@ -2397,6 +2881,12 @@ def corpus_program_eval(jobs, results, params, prob):
                 if km["finding"] == "C10/reaching-def-lost":
                     du = km["def_use"]
                     ok = any(def_use_edge_missing(g, consts, du["var"], du["file"], du["def_line"], du["file"], du["use_line"]) for g in graphs)
+                if km["finding"] == "C10/same-symbol-at-two-positions":
+                    st_ = km["stmt"]      # [file, line, callee, variable, designated edge position]
+                    ok = any(n[0] == consts["K_STMT"] and n[11] == st_[2] and n[6] + 1 == st_[1] and
+                             [pos for p_, et, pos in g["in"][u] if et == consts["E_USED"] and g["nodes"][p_][5] == st_[3]] not in ([], [st_[4]]) and
+                             all(pos != st_[4] for p_, et, pos in g["in"][u] if et == consts["E_USED"] and g["nodes"][p_][5] == st_[3])
+                             for g in graphs for u, n in enumerate(g["nodes"]))
                 if km["finding"] == "C10/join-arg-state-lost":
                     du = km["def_use"]
                     ok = any(arg_value_not_passed(g, consts, du["var"], du["file"], du["def_line"], du["file"], du["use_line"]) for g in graphs)
@@ -2467,12 +2957,15 @@ def run_program_payload(payload, root):
     d = os.path.join(root, "replay_%d" % int(time.time() * 1000 % 1e9))
     os.makedirs(d, exist_ok=True)
     cd = os.path.join(d, "cfg_base")
-    write_settings(cd, payload["src_groups"], payload["sink_groups"])
-    job = {"name": "replay", "dir": d, "files": payload["files"], "configs": [{"name": "base", "dir": cd}]}
+    write_settings(cd, payload["src_groups"], payload["sink_groups"], entry_methods=payload.get("entry_methods"))
+    job = {"name": "replay", "dir": d, "files": payload.get("run_files") or payload["files"], "configs": [{"name": "base", "dir": cd}],
+           "langs": payload.get("langs")}
     res = run_jobs([job])[0]
     rep = set()
     if res["error"]:
         return None, res
+    own = set(payload["files"])
+    res["cases"] = [c for c in res["cases"] if os.path.basename(c["unit"]) in own]     # only the program's entry points
     for c in res["cases"]:
         if "out_of_fragment" not in c:
             rep |= reported_pairs(c)
@@ -2480,12 +2973,58 @@ def run_program_payload(payload, root):
 
 
 def program_problem_persists(payload, root):
+    """Does the recorded verdict reproduce?  First on the program alone; statement and state ids (and with them every
+    iteration order over sets of ids inside lian) depend on what else is in the workspace, so when the program alone
+    does not reproduce the verdict and the replay carries the files of the packed run it came from, the program is
+    run again in exactly that context."""
+    if _program_problem_persists_in(payload, root):
+        return True
+    ctxf = payload.get("context_files")
+    if ctxf and set(ctxf) != set(payload["files"]):
+        return _program_problem_persists_in(dict(payload, run_files=ctxf), root)
+    return False
+
+
+def _program_problem_persists_in(payload, root):
     pr = payload["problem"]
     rep, res = run_program_payload(payload, root)
     if rep is None:
         return False
     if pr.get("expect") == "crash":
         return any(c.get("real", {}).get("exc") or c.get("real", {}).get("err") for c in res["cases"])
+    if pr.get("expect") == "report":
+        return any(p.get("channel") == pr.get("channel") for _, p in report_problems(res.get("report")))
+    if pr.get("expect") in ("silent", "xlang-missed", "xlang-spurious"):
+        names = set()
+        active = False
+        for c in res["cases"]:
+            if "out_of_fragment" in c:
+                continue
+            real = c["real"]
+            active = active or bool(real["sources"] or real["sinks"] or real["flows"])
+            for a, b, v in (real["flows"] or []):
+                pa, pb = c["stmt_pos"].get(a) or c["stmt_pos"].get(str(a)), c["stmt_pos"].get(b) or c["stmt_pos"].get(str(b))
+                names.add((pa[3], pb[3]))
+        if pr["expect"] == "silent":
+            return active
+        return (tuple(pr["names"]) not in names) if pr["expect"] == "xlang-missed" else (tuple(pr["names"]) in names)
+    if "stmt_pair" in pr:
+        rep_s = {}
+        for c in res["cases"]:
+            if "out_of_fragment" not in c:
+                rep_s.update(reported_stmt_pairs(c))
+        key_s = (tuple(pr["stmt_pair"][0]), tuple(pr["stmt_pair"][1]))
+        if pr["expect"] == "spurious":
+            return key_s in rep_s
+        if payload.get("layout_main"):
+            # the expectation is recomputed: the same files executed by CPython
+            import taint_layouts as tl
+            work = os.path.join(root, "exec")
+            os.makedirs(work, exist_ok=True)
+            gt, err = tl.execute(payload["files"], payload["layout_main"], work)
+            if err or tuple(pr["names"]) not in gt:
+                return False
+        return key_s not in rep_s
     if "pair" not in pr:
         return True
     key = ((pr["pair"][0][0], pr["pair"][0][1]), (pr["pair"][1][0], pr["pair"][1][1]))
@@ -2507,7 +3046,7 @@ def shrink_program_problem(item, root, max_runs=10):
     """delete whole lines after the sink / unrelated top-level lines while the verdict persists (line numbers of the
     pair must stay valid, so only lines AFTER both sites of the main file are candidates)"""
     pr = item["problem"]
-    if "pair" not in pr or pr.get("expect") != "spurious":
+    if "pair" not in pr or pr.get("expect") != "spurious" or "stmt_pair" in pr:
         # a MISSED flow is only a violation while the program still produces it at run time; the ground truth cannot
         # be recomputed from truncated text, so such programs are reported as generated
         return item
@@ -2521,7 +3060,7 @@ def shrink_program_problem(item, root, max_runs=10):
         runs += 1
         try:
             compile(cand["files"][main], main, "exec")
-            if program_problem_persists(cand, root):
+            if _program_problem_persists_in(cand, root):
                 cur = cand
         except SyntaxError:
             pass
@@ -2568,7 +3107,16 @@ def run_check(ctx, side):
         "if/while, 1-2 files; call / method-call / parameter / field-read sources; call / method-call / field-write / record-write sinks) analysed by lian in "
         f"packed in-process runs, every entry point's in-memory SFG re-evaluated under 11 rule configurations written as YAML and loaded by the REAL RuleManager (base incl. prefix/suffix decoy rules, plain, same-name duplicates appended / prepended, all-java, no source, no sink, half java, unit_name-restricted sinks, line_num-restricted sources, any-language marker) ({packed_stats['graph_config_pairs']} graph x configuration pairs) "
         "by the real functions and the model; ground truth = CPython identity tracking over all decision vectors (loops at most once), upper bound = flow- and "
-        "context-insensitive dependence closure of the generator's AST. distinct_nontrivial = distinct synthetic (graph, rules) with >=1 real flow + programs with "
+        "context-insensitive dependence closure of the generator's AST; "
+        f"(e) {packed_stats.get('layout', {}).get('programs', 0)} layout programs ({packed_stats.get('layout', {}).get('files', 0)} files: several source / sink statements on one line, helpers with 2-3 "
+        "returns in every tainted/clean combination, class hierarchies of depth 1-3 over 1-3 files in both file-name orders with inherited constructors and "
+        "methods, aliased imports) whose flows are identified by source and sink STATEMENT (file, line, column, callee) against a ground truth obtained by executing "
+        f"the same text under CPython; and in every packed run and corpus program the WRITTEN report (console + taint_data_flow.json, {packed_stats.get('report_flows_compared', 0)} flows) "
+        "is compared with what find_flows returned; "
+        f"(f) {packed_stats.get('other_languages', {}).get('programs', 0)} generated Java / C programs under rule groups of java, c, javascript, csharp, typescript, abc, python and the "
+        f"any-language marker ({packed_stats.get('other_languages', {}).get('must_be_silent', 0)} (entry, configuration) pairs in which the group's language merely CONTAINS the unit's and nothing may be found); "
+        "literal operands (STATE_IS_USED predecessors whose ids collide with symbol ids) on synthetic graphs and in literal-stress programs, "
+        "with the invariants of the SYMBOL tag table checked on the real tables after every propagation and at every sink-tag lookup. distinct_nontrivial = distinct synthetic (graph, rules) with >=1 real flow + programs with "
         ">=1 expected and >=1 reported flow")
     ctx.cov["exhaustive"] = False
     ctx.cov["samples"] = synth_samples + packed_samples
